@@ -142,6 +142,9 @@ fn scripted_case(which: &'static str, seed: u64, trace: bool) -> CaseOut {
     if which == "zero_rtt_open" {
         return isolated(trace, move |o| zrtt::run_zero_rtt(seed, &o));
     }
+    if which == "zero_rtt_rejected" {
+        return isolated(trace, move |o| zrtt::run_zero_rtt_rejected(seed, &o));
+    }
     isolated(trace, move |o| sim::run_case(Plan::scripted(seed, which), &o))
 }
 
@@ -295,7 +298,7 @@ fn run_check(ctx: &Ctx) -> i32 {
     let mut rep = Report::default();
     let q = ctx.tier == Tier::Quick;
     // directed histories first (the two suspects of DESIGN section 3): always exercised
-    for (name, which) in [("scripted-received-reset-cancel", "rr_cancel"), ("scripted-stopped-cancel-reset", "stopped_cancel_reset"), ("scripted-plain", "plain"), ("scripted-zero-rtt-open", "zero_rtt_open")] {
+    for (name, which) in [("scripted-received-reset-cancel", "rr_cancel"), ("scripted-stopped-cancel-reset", "stopped_cancel_reset"), ("scripted-plain", "plain"), ("scripted-zero-rtt-open", "zero_rtt_open"), ("scripted-zero-rtt-rejected", "zero_rtt_rejected")] {
         let g = Group { name, cases: ctx.tier.pick(30, 300), budget_s: 60.0, exhaustive: false };
         run_group(ctx, &mut rep, &g, |_, seed, trace| scripted_case(which, seed, trace));
     }
